@@ -9,6 +9,7 @@ function becomes undecided), SURVIVED when every contract still verifies.  Survi
 mutants or behaviour the contracts do not pin down - the list is the to-do list for stronger post-conditions.
 
 usage: python3-vt tools/mutate.py [PROPERTY ...] [--per-function N] [--max-variants M] [--seed S] [--out FILE]
+       [--functions substr,substr] [--procs N]
 """
 import ast
 import copy
@@ -106,12 +107,16 @@ def main():
     max_var = int(args[args.index("--max-variants") + 1]) if "--max-variants" in args else 6
     seed = int(args[args.index("--seed") + 1]) if "--seed" in args else 0
     outf = args[args.index("--out") + 1] if "--out" in args else str(ROOT / "mutation_report.json")
+    only = args[args.index("--functions") + 1].split(",") if "--functions" in args else None
+    procs = int(args[args.index("--procs") + 1]) if "--procs" in args else 16
     props = [a for a in args if a.startswith("C") and len(a) == 3] or sorted(pkg.PROPERTIES)
     rnd = random.Random(seed)
     db = build_db()
     by_fn = {}
     for key, c in db.contracts.items():
         if c.trusted or c.inline or not (set(c.properties) & set(props)):
+            continue
+        if only and not any(o in key for o in only):
             continue
         by_fn.setdefault((c.module, c.qualname), []).append(key)
     tasks, meta = [], {}
@@ -134,7 +139,7 @@ def main():
     print(f"{len(by_fn)} functions, {len(meta)} mutants, {len(tasks)} verification runs", flush=True)
     t0 = time.time()
     results = []
-    with mp.Pool(16, maxtasksperchild=1) as pool:
+    with mp.Pool(procs, maxtasksperchild=1) as pool:
         for task, (key, dead, why) in zip(tasks, pool.imap(run_one, tasks, chunksize=1)):
             results.append((task, dead, why))
     per_mut = {}
